@@ -16,7 +16,9 @@ FirstBad(s, Decl) == IF \E i \in 1..Len(s) : s[i] \notin Decl
 Prefix(s, n) == {s[i] : i \in 1..n}
 
 KeyOps  == {"setitem", "setdefault"}
-ListOps == {"update_dict", "update_pairs", "update_kwargs", "ior"}
+\* the argument of update / |= / the constructor may be a plain dict, a list of pairs, keyword arguments or a
+\* fixed-entry dictionary of ANOTHER type (which may hold keys this type does not declare): same rule for all
+ListOps == {"update_dict", "update_pairs", "update_kwargs", "ior", "update_fd", "ior_fd"}
 SelfOps == {"copy", "pickle"}
 
 (* does operation o name a key outside Decl? *)
@@ -27,7 +29,7 @@ NamesUndeclared(o, Decl) ==
 
 (* --- the design: what each operation must do to mapping m ----------------------------- *)
 PostP(m, Decl, o) ==
-  CASE o.op = "construct" ->
+  CASE o.op \in {"construct", "construct_fd"} ->
          \* construction from a mapping: rejected as a whole if any key is undeclared
          IF Range(o.ks) \subseteq Decl
          THEN [d |-> Assign(<<>>, Range(o.ks), o.v), res |-> "ok"]
